@@ -1131,6 +1131,8 @@ def search(ob, wit=None):
         return check_resolver("_normalize_relative_path") or witness("resolution", "pptx")
     if "_resolve_drawing_path" in ob:
         return check_resolver("_resolve_drawing_path")
+    if "_odf_length_to_px" in ob:
+        return check_odf_length()
     if "/rel-type#" in ob:
         return other_kinds_sweep(fmt)
     if "lookup-table-scope" in ob or "relationship-table-of-the-given-part" in ob or "relationships-of-the-slide-being-processed" in ob:
@@ -1210,6 +1212,38 @@ def search(ob, wit=None):
     if "data_types.py" in ob:
         cls = ob.split("::")[1].split(".")[0] if "::" in ob else None
         return check_views(cls if cls and cls.endswith("Content") else None)
+    return None
+
+
+def check_odf_length():
+    """`data_types._odf_length_to_px` and the width / height an ODF picture reports, on a grid of numerals x units, against exact rational
+    arithmetic: CSS absolute lengths at 96 dpi (px 1, in 96, cm 96/2.54, mm 96/25.4, pt 96/72, pc 16); units outside the table give None."""
+    from fractions import Fraction as Fr
+    dt = _imp("sharepoint2text.parsing.extractors.data_types")
+    f = getattr(dt, "_odf_length_to_px", None)
+    K = {"px": Fr(1), "in": Fr(96), "cm": Fr(9600, 254), "mm": Fr(960, 254), "pt": Fr(96, 72), "pc": Fr(16)}
+    nums = ["0", "1", "2", "3", "0.5", "1.5", "2.54", "10", "12.7", "17.59", "21.001", "72", "100", "254", "1234.567"]
+
+    def via_metadata(s):
+        img = dt.OpenDocumentImage(href="Pictures/a.png", name="a.png", width=s, height=s, image_index=1)
+        md = img.get_metadata()
+        return md.get("width"), md.get("height")
+    for unit, k in K.items():
+        for spell in (unit, unit.upper(), " " + unit):
+            for n in nums:
+                s = f"{n}{spell}"
+                want = Fr(n) * k
+                for how, got in ((f"_odf_length_to_px({s!r})", f(s) if f else None), (f"OpenDocumentImage(width={s!r}).get_metadata()['width']", via_metadata(s)[0])):
+                    if (f is None and how.startswith("_odf")) or (want < 1 and not how.startswith("_odf")):    # the metadata report no extent of 0
+                        continue
+                    if not isinstance(got, int) or abs(got - want) > Fr(1, 2) + want / 10**9:
+                        return {"target": how, "aspect": "pixel-size", "inputs": {"length": s}, "expected": f"{float(want):.3f} px rounded ({unit}: {float(k):.4f} px per unit at 96 dpi)",
+                                "observed": repr(got)}
+    for s in ("3em", "50%", "2ex", "1furlong"):
+        got = via_metadata(s)[0]
+        if got is not None:
+            return {"target": f"OpenDocumentImage(width={s!r}).get_metadata()['width']", "aspect": "pixel-size", "inputs": {"length": s},
+                    "expected": "None (not an absolute length)", "observed": repr(got)}
     return None
 
 
